@@ -440,6 +440,17 @@ def apply_repo(w, e, fi, clsbind, args, kwargs, s, closure=None, raw=False):
     # ... and a private helper that is analysed in place is also specialised on constant string
     # arguments (message templates, field names), so that e.g. template.format(x) is decided
     funargs = tuple(sorted(((n, mp[n]) for n in order if _is_callable_term(mp[n]) or (will_inline and is_const(mp[n]) and isinstance(mp[n][2], str)) or (will_inline and n.startswith("*") and mp[n][0] == "lit")), key=lambda kv: kv[0]))
+    heap0 = s.env.get("$heap")
+    if heap0:
+        extra = []
+        for n in order:
+            v = mp[n]
+            if isinstance(v, tuple) and len(v) == 3 and v[0] == "obj" and not any(n == fn_ for fn_, _t in funargs):
+                for (o, a), hv in heap0.items():
+                    if o == v and _is_callable_term(hv) and not (isinstance(hv, tuple) and hv[0] == "obj"):
+                        extra.append(("%s.%s" % (n, a), hv))
+        if extra:
+            funargs = tuple(sorted(funargs + tuple(extra), key=lambda kv: kv[0]))
     back = {}
     if funargs:
         # parameters of the *caller* that occur inside such an argument (captured variables of a
@@ -632,6 +643,11 @@ def _is_callable_term(t):
         return True  # a module constant (a record, a table, a compiled pattern): specialise on it
     if t[0] == "lit" and len(t) == 4 and t[1] == "tuple" and t[2] and all(_is_callable_term(x) or is_const(x) for x in t[2]) and any(_is_callable_term(x) for x in t[2]):
         return True  # a tuple of classes / functions (isinstance(x, TYPES), a table row)
+    if t[0] == "call" and len(t) == 4:
+        from .walker import is_argparse_term
+
+        if is_argparse_term(t):
+            return True  # a parser handed to a helper that registers arguments on it
     if t[0] == "lit" and len(t) == 4 and t[1] == "dict" and t[2] and all(is_const(k) and (_is_callable_term(v) or is_const(v)) for k, v in t[2]) and any(_is_callable_term(v) for _k, v in t[2]):
         return True  # a table {name: function}
     if t[0] == "call" and len(t) == 4 and t[1] == "ext:inspect.signature" and len(t[2]) == 1 and _is_callable_term(t[2][0]):
